@@ -223,6 +223,7 @@ def solve(dom, cl, total, damping, minimal, fpots, cap, pre=None):
 
 
 EXTENDED = [0]
+KILLED = [0]
 
 
 PREHIST = [0]
@@ -391,6 +392,17 @@ def run(res, drv, tier, seed):
         caps.append(ccap)
         probe = rggen.build_rg(dom, cl, total, convex=True, minimal=minimal)
         pots = rggen.gen_pots(r, dom, list(probe.cliques), transposed=0.3 if r.random() < 0.25 else 0.0)
+        if generated and r.random() < 0.2:
+            # one structurally impossible cell (potential -inf) in a clique of >= 2 attributes that all have >= 2 values: no whole row of
+            # any region is ruled out, the optimum stays unique and strictly positive elsewhere
+            cand = [i for i, (c_, fd_, v_) in enumerate(pots) if len(fd_) >= 2 and all(s_ >= 2 for _, s_ in fd_)]
+            if cand:
+                i_ = r.choice(cand)
+                c_, fd_, v_ = pots[i_]
+                v_ = list(v_)
+                v_[r.randrange(len(v_))] = Fr(0)
+                pots[i_] = (c_, fd_, v_)
+                KILLED[0] += 1
         fpots = rggen.pots_float(pots)
         pre = rggen.pots_float(rggen.gen_pots(r, dom, list(probe.cliques))) if (generated and len(work) % 3 == 2) else None
         try:
@@ -408,6 +420,7 @@ def run(res, drv, tier, seed):
                      'convergence': enc_f(rg.convergence), 'calls': [{'iters': c['iters'], 'pots': rggen.enc_fpots(c.get('fp', fpots)), 'damping': enc_f(c['damping'])} for c in calls]})
     resps = drv.run(reqs, timeout=3000) if drv else [None] * (2 * len(work))
     res.extra['stages_continued_beyond_cap_while_contracting'] = EXTENDED[0]
+    res.extra['cases_with_one_impossible_cell'] = KILLED[0]
     r_aux = rng(seed, 'C17-aux')
     for i, (case, rg, calls, used, size, fpots, pots) in enumerate(work):
         check(res, resps[2 * i + 1], resps[2 * i], case, rg, calls, used, size, fpots, pots, r_aux, caps[i])
